@@ -2,7 +2,8 @@
 From L4 Require Import Common.Val Model.Literals.
 Local Open Scope N_scope.
 
-(* case: ( kind form payload fmt )   kind 0 size | 1 interval
+(* case: ( kind form payload fmt )   kind 0 size | 1 interval | 2 refresh_rate (humantime: not
+   modelled, the result is the constant (2) and the check compares the crate with humantime itself)
    form 0: payload = Z value (integer scalar); form 1: float scalar (payload ignored);
    form 2/3: payload = list of code points (string scalar; 3 = written as a plain YAML scalar);
    form 4: payload = ( Z text ) an integer scalar in an alternative YAML spelling (+5, 0x10, 0o17):
@@ -27,6 +28,7 @@ Definition c20_run (v : vl) : vl :=
     match dec_scalar form p with
     | None => VBad
     | Some sc =>
+      if kind =? 2 then VL [VN 2] else
       if kind =? 0 then
         match parse_size sc with Some n => VL [VN 1; VN n] | None => VL [VN 0] end
       else
